@@ -57,6 +57,8 @@ pub enum Op {
     /// a withdrawal sized so that the insurance fund advances exactly what the weakest position's liquidation will realise as
     /// bad debt beyond the engine's prepaid counter; the liquidation follows
     MatchPrepaid { v: u8, t: u8, knob: u16 },
+    /// SetPause{true}, a liquidation of the weakest position, SetPause{false}: one block
+    PausedLiq { v: u8, who: u8 },
 }
 
 #[derive(Clone, Debug, Serialize, Deserialize, PartialEq, Eq, Hash)]
@@ -98,6 +100,7 @@ pub struct Weights {
     pub handover: u32,
     pub lag: u32,
     pub match_prepaid: u32,
+    pub paused_liq: u32,
 }
 
 impl Weights {
@@ -133,6 +136,7 @@ impl Weights {
             handover: 0,
             lag: 0,
             match_prepaid: 0,
+            paused_liq: 0,
         }
     }
 }
@@ -354,6 +358,7 @@ pub fn op_strategy(w: &Weights) -> BoxedStrategy<Op> {
         (w.handover, 27),
         (w.lag, 28),
         (w.match_prepaid, 29),
+        (w.paused_liq, 30),
     ]
     .into_iter()
     .filter(|(wt, _)| *wt > 0)
@@ -400,7 +405,8 @@ pub fn op_strategy(w: &Weights) -> BoxedStrategy<Op> {
                 26 => Op::Drain { v, t, knob: k1 },
                 27 => Op::Handover { to: s2 },
                 28 => Op::LagSqueeze { v, target: t, knob: k1 },
-                _ => Op::MatchPrepaid { v, t, knob: k1 },
+                29 => Op::MatchPrepaid { v, t, knob: k1 },
+                _ => Op::PausedLiq { v, who: s2 },
             }
         })
         .boxed()
